@@ -1,8 +1,17 @@
 //! Per-property recording commands, one module per property (registered here).
 use crate::Args;
 
+pub mod c19;
+pub mod c20;
+pub mod nodeops;
+
 pub fn dispatch(_cmd: &str, _a: &Args) -> bool {
     match _cmd {
+        "c19" => c19::c19(_a),
+        "c19-replay" => c19::c19_replay(_a),
+        "c19-restable" => c19::c19_restable(_a),
+        "c20" => c20::c20(_a),
+        "c20-replay" => c20::c20_replay(_a),
         _ => return false,
     }
     #[allow(unreachable_code)]
